@@ -383,3 +383,24 @@ PROPS["C15"] = {
     "assumptions": ["trust_syntax::lex is the token oracle (its own totality/losslessness is C12)"],
     "design_ref": "DESIGN.md section 3, C15",
 }
+
+PROPS["C16"] = {
+    "engine": "c16",
+    "level": "exploration",
+    "technique": "rename monitor over the public trust_ide::rename API: edit well-formedness, diagnostics up to the name, binding map via goto_definition, K-cycle behaviour via the real runtime, rename-back round trip, for every identifier occurrence x new-name class",
+    "quick": {"shards": 8, "budget_s": 30, "watchdog_s": 900},
+    "thorough": {"shards": 16, "budget_s": 420, "watchdog_s": 3600},
+    "floor": {"quick": 2000, "thorough": 50000},
+    "require_counters": {"quick": {"rename_trials": 20000, "renames_applied": 5000, "rename_back_round_trips": 5000, "behaviour_runs_compared": 1000, "bindings_compared": 20000}, "thorough": {"rename_trials": 500000}},
+    "rule": "two-file projects (function, FB with inputs/outputs/locals, struct type, program with FB instance / struct / externals, configuration with a global and a program instance); suite `unique`: "
+            "every identifier declared once; suite `shared`: identifiers drawn from a 14-name pool so equal names live in several scopes. Rename position = every identifier token of both files; new "
+            "name in {fresh, every other identifier of the project, upper-case variant, IF, END_VAR, DINT, `1abc`, `a b`, empty}; quick samples a third of the (position, name) pairs, thorough all. "
+            "distinct = (project, position, new name); non-trivial = rename returned edits (refusals counted separately)",
+    "level_text": "rename must refuse, or: every edit is in bounds, non-overlapping and replaces an occurrence of the old identifier; the edited project has the same diagnostics (code, mapped position, "
+                  "message with the name normalised); every renamed occurrence and every pre-existing occurrence of the new name resolves (goto_definition) to the same declaration as before; if the "
+                  "project builds, the renamed one builds and 3 cycles give the same storage walk modulo the renamed key; renaming back at the mapped position restores the text.",
+    "level_note": "goto_definition is trusted only for occurrences the rename is about (renamed ones and same-named ones). Behaviour is not compared when the new name already exists elsewhere in the project "
+                  "(name-neutral comparison would be ambiguous); capture is then decided by the binding map and diagnostics.",
+    "assumptions": ["projects are error-free before the rename (others are skipped and counted)"],
+    "design_ref": "DESIGN.md section 3, C16",
+}
